@@ -216,6 +216,7 @@ impl DriverLite {
             snaps: vec![],
             opidx: 0,
             clock: 0,
+            clock_ms: 0,
             filter_log: None,
             last_op_info: Default::default(),
             value_tag: b'v',
